@@ -132,6 +132,10 @@ theorem apiFind_all (body : List Stmt) (pat : Pat) (l : List Cursor)
   simp only [↓reduceIte, h, bind, Except.bind]
   cases l <;> rfl
 
+example : apiFind [.pass, .reduce "x" [] (.const ⟨1, 1⟩), .pass] (.stmts [.pass]) none true
+    = .ok [.node [("body", some 0)], .node [("body", some 2)]]
+    ∧ apiFind [.pass] (.stmts [.reduce "_" [] .hole]) none true = .error .noMatch := by decide
+
 /-- `find(pattern)`: the first match, error iff none -/
 theorem apiFind_first (body : List Stmt) (pat : Pat) (l : List Cursor)
     (h : findRaw body pat none = .ok l) :
@@ -217,6 +221,10 @@ theorem allocPat_matches (name : String) (s : Stmt) :
   rename_i n h
   cases h <;> simp [matchEs]
 
+example : matchStmt (.alloc "t" []) (.alloc "t" (some [.read "n" []])) = true
+    ∧ matchStmt (.alloc "t" []) (.alloc "u" none) = false
+    ∧ matchStmt (.for_ "i" .hole .hole [.hole]) (.for_ "i" (.const ⟨0, 1⟩) (.read "n" []) []) = false := by decide
+
 example : apiFind [.for_ "i" (.const ⟨0, 1⟩) (.read "n" []) [.pass],
                    .for_ "j" (.const ⟨0, 1⟩) (.read "n" []) [.for_ "i" (.const ⟨0, 1⟩) (.read "n" []) [.pass]]]
     (.stmts (forPat "i")) (some 1) false = .ok [.node [("body", some 1), ("body", some 0)]] := by decide
@@ -241,6 +249,8 @@ theorem find_loop_shorthand_plain (name : List Char) (h : IsIdent name) :
     splitMatchNo (expandLoop name) = ("for ".toList ++ name ++ " in _: _".toList, none) := by
   simp only [expandLoop, nameCount_name name h, List.append_nil]
   exact splitMatchNo_none _ (forText_no_hash name h)
+
+example : splitMatchNo (expandLoop "jo".toList) = ("for jo in _: _".toList, none) := by decide
 
 /-- **`find_alloc_or_arg("name #n")`** (no argument of that name): `name: _` and `n` -/
 theorem find_alloc_shorthand (name sp ds : List Char) (h : IsIdent name)
@@ -275,6 +285,43 @@ theorem find_loop_shorthand_blank_after_hash_partial (name sp sp2 ds : List Char
   rw [this]
 
 example : splitMatchNo (expandLoop "i # 2".toList) = ("for i in _: _# 2".toList, none) := by decide
+
+/-! ### the node-level matcher's literal quirks, pinned down (all checked against the real code by
+    the harness; see docs/C16.md) -/
+
+-- zip truncation: `x` and `x[_]` match `x[i, j]`; `x[_, _, _]` too
+example : matchE (.read "x" []) (.read "x" [.read "i" [], .read "j" []]) = true
+    ∧ matchE (.read "x" [.hole]) (.read "x" [.read "i" [], .read "j" []]) = true
+    ∧ matchE (.read "x" [.hole, .hole, .hole]) (.read "x" [.read "i" []]) = true
+    ∧ matchE (.read "x" [.read "j" []]) (.read "x" [.read "i" [], .read "j" []]) = false := by decide
+-- a window expression is matched by `name[_]` only; a window statement by `name = …` without indices
+example : matchE (.read "y" [.hole]) (.windowExpr "y" [.point (.read "i" []), .interval (.const ⟨0, 1⟩) (.read "n" [])]) = true
+    ∧ matchE (.read "y" []) (.windowExpr "y" [.point (.read "i" [])]) = false
+    ∧ matchE (.read "y" [.hole, .hole]) (.windowExpr "y" [.point (.read "i" []), .point (.read "i" [])]) = false
+    ∧ matchStmt (.assign "w" [] .hole) (.windowStmt "w" (.windowExpr "y" [])) = true
+    ∧ matchStmt (.assign "w" [.hole] .hole) (.windowStmt "w" (.windowExpr "y" [])) = false := by decide
+-- `stride(y, 0)` behaves like `stride(y, _)`; `-3` (USub(Const 3)) matches the literal -3
+example : matchE (.strideExpr "y" (some 0)) (.strideExpr "y" 1) = true
+    ∧ matchE (.strideExpr "y" (some 1)) (.strideExpr "y" 0) = false
+    ∧ matchE (.usub (.const ⟨3, 1⟩)) (.const ⟨-3, 1⟩) = true
+    ∧ matchE (.usub (.const ⟨3, 1⟩)) (.usub (.const ⟨3, 1⟩)) = true := by decide
+-- WriteConfig: the hole test is applied to the *statement's* names, so `_` in the pattern does not match
+example : matchStmt (.writeConfig "Cfg" "a") (.writeConfig "Cfg" "a" (.const ⟨1, 1⟩)) = true
+    ∧ matchStmt (.writeConfig "_" "a") (.writeConfig "Cfg" "a" (.const ⟨1, 1⟩)) = false := by decide
+-- statement holes: `_` + look-ahead matches zero or more statements; a trailing `_` needs at least
+-- one statement and then takes the rest of the block; a body pattern matches a prefix of the body;
+-- no `else:` in the pattern matches any orelse
+example : matchStmts [.hole, .pass] [.pass] = some 1
+    ∧ matchStmts [.hole, .pass] [.alloc "t" none, .alloc "u" none, .pass, .pass] = some 3
+    ∧ matchStmts [.pass, .hole] [.pass] = none
+    ∧ matchStmts [.pass, .hole] [.pass, .alloc "t" none, .pass] = some 3
+    ∧ matchStmt (.for_ "i" .hole .hole [.pass]) (.for_ "i" (.const ⟨0, 1⟩) (.const ⟨4, 1⟩) [.pass, .alloc "t" none]) = true
+    ∧ matchStmt (.if_ .hole [.hole] []) (.if_ (.const ⟨1, 1⟩) [.pass] [.pass]) = true
+    ∧ matchStmt (.if_ .hole [.hole] [.hole]) (.if_ (.const ⟨1, 1⟩) [.pass] []) = false := by decide
+-- Alloc shapes are not expression positions (`_children` lists none): `n` is found in the loop
+-- bound but not in `t: f32[n]`
+example : findRaw [.alloc "t" (some [.read "n" []]), .for_ "i" (.const ⟨0, 1⟩) (.read "n" []) [.pass]]
+    (.expr (.read "n" [])) none = .ok [.node [("body", some 1), ("hi", none)]] := by decide
 
 /-! ## Part 2: navigation -/
 
@@ -352,6 +399,11 @@ theorem next_prev (t : NTree) (p q : Path) (hv : Valid t p) (h : prev t p 1 = .o
 theorem prev_next (t : NTree) (p q : Path) (hv : Valid t p) (h : next t p 1 = .ok q) :
     prev t q 1 = .ok p :=
   next_inverse t p q 1 hv h
+
+example : prev exT [("body", some 0), ("body", some 2)] 1 = .ok [("body", some 0), ("body", some 1)]
+    ∧ next exT [("body", some 0), ("body", some 1)] 1 = .ok [("body", some 0), ("body", some 2)]
+    ∧ next exT [("body", some 0), ("body", some 0)] 2 = .ok [("body", some 0), ("body", some 2)]
+    ∧ next exT [("body", some 0), ("body", some 2)] (-2) = .ok [("body", some 0), ("body", some 0)] := by decide
 
 /-- at the last statement `next()` is the invalid cursor; at the first, `prev()` -/
 theorem next_at_end (t : NTree) (pp : Path) (attr : String) (i : Nat) (n : NTree) (cs : List NTree)
@@ -462,6 +514,12 @@ theorem childBlock_index (t : NTree) (p : Path) (attr : String) (n : NTree) (cs 
   have h3 : ¬ ((i : Int) < 0) := by omega
   simp only [h1, h2, h3, and_self, ↓reduceIte, Int.zero_add]
 
+example : blockGet exT [("body", some 0)] "body" 0 3 (-1) = .ok [("body", some 0), ("body", some 2)]
+    ∧ blockGet exT [("body", some 0)] "body" 1 3 0 = .ok [("body", some 0), ("body", some 1)]
+    ∧ blockGet exT [("body", some 0)] "body" 1 3 2 = .error .index
+    ∧ blockGet exT [("body", some 0)] "body" 1 3 (-3) = .error .index
+    ∧ childBlock exT [("body", some 0)] "body" = .ok (.block [("body", some 0)] "body" 0 3) := by decide
+
 /-- **slicing**: `b[:]` is `b`; a slice stays inside `b`; `b[x:y][k] = b[x+k]`;
     a statement's `as_block` is the slice `b[i:i+1]` -/
 theorem slice_full (a : Path) (attr : String) (lo hi : Int) (h : lo ≤ hi) :
@@ -566,19 +624,31 @@ example : expand exT [("body", some 0)] "body" 1 2 (some 5) (some 1) = .ok (.blo
     top-level statements -/
 theorem pubParent_child (t : NTree) (p q : Path) (attr : String) (i : Option Int) (n : NTree)
     (hn : resolve t p = some n) (hw : isWAccessTag n.tag = false) (hp : (n.tag == "proc") = false)
+    (hl : isLiftableTag n.tag = true)
     (h : childNode t p attr i = .ok q) :
     pubParent t (.node q) = .ok (.cur (.node p)) := by
   have := parent_child t p q attr i h
-  simp [pubParent, cursorParent, this, bind, Except.bind, hn, hw, hp, lift, pure, Except.pure]
+  simp [pubParent, cursorParent, this, bind, Except.bind, hn, hw, hp, hl, lift, pure, Except.pure]
 
 theorem pubParent_through_waccess (t : NTree) (p w q : Path) (k : Int) (attr : String) (n nw : NTree)
-    (hn : resolve t p = some n) (hp : (n.tag == "proc") = false)
+    (hn : resolve t p = some n) (hl : isLiftableTag n.tag = true)
     (h1 : childNode t p "idx" (some k) = .ok w) (hw : resolve t w = some nw) (hww : isWAccessTag nw.tag = true)
     (h2 : childNode t w attr none = .ok q) :
     pubParent t (.node q) = .ok (.cur (.node p)) := by
   have e1 := parent_child t w q attr none h2
   have e2 := parent_child t p w "idx" (some k) h1
-  simp [pubParent, cursorParent, e1, e2, bind, Except.bind, hw, hww, lift, hn, hp, pure, Except.pure]
+  simp [pubParent, cursorParent, e1, e2, bind, Except.bind, hw, hww, lift, hn, hl, pure, Except.pure]
+
+def exW : NTree :=
+  .mk "proc" [("body", true, [.mk "WindowStmt" [("rhs", false, [.mk "WindowExpr" [("idx", true,
+    [.mk "Interval" [("lo", false, [.mk "Const" []]), ("hi", false, [.mk "Read" [("idx", true, [])]])],
+     .mk "Point" [("pt", false, [.mk "Read" [("idx", true, [])]])]])]])]])]
+
+example : pubParent exW (.node [("body", some 0), ("rhs", none), ("idx", some 0), ("hi", none)])
+      = .ok (.cur (.node [("body", some 0), ("rhs", none)]))
+    ∧ pubParent exW (.node [("body", some 0), ("rhs", none), ("idx", some 1), ("pt", none)])
+      = .ok (.cur (.node [("body", some 0), ("rhs", none)]))
+    ∧ pubParent exW (.node [("body", some 0), ("rhs", none)]) = .ok (.cur (.node [("body", some 0)])) := by decide
 
 theorem pubParent_toplevel (t : NTree) (q : Path) (attr : String) (i : Option Int) (n : NTree)
     (hn : resolve t [] = some n) (hp : (n.tag == "proc") = true)
